@@ -208,7 +208,7 @@ func cycleFactors(s ref.State, img *mem.Image) (op byte, pcross, rel8, taken, bc
 }
 
 func C12(r *vf.Run) {
-	r.Rule = "(a) cycle-factor sweep on both interpreters: a state is constructed for every opcode x (E,M,X) x DL!=0 x index page-cross x branch {not taken, taken, taken across a page} and the accounting equalities asserted, also with an interrupt request pending on entry (cycles >= 1, AllCycles advances by exactly the returned value, stopped iff STP executed, sticky until Reset); (b) twin replay of System.RunUntil against a literal single-stepping specification over generated (program, target, budget) cases, comparing state, AllCycles, memory, return value and Logger.Write count; (c) OnPC callbacks counted against instruction fetches at their address - on fresh CPUs and on one reused CPU whose callback set is moved, replaced, grown, shrunk and self-re-armed between runs - and OnWDM operand on both interpreters. A cell is (opcode, E, M, X, DL, page-cross, branch outcome) for (a) and (stop reason, budget class, target class) for (b)"
+	r.Rule = "(a) cycle-factor sweep on both interpreters: a state is constructed for every opcode x (E,M,X) x DL!=0 x index page-cross x branch {not taken, taken, taken across a page} and the accounting equalities asserted, also with an interrupt request pending on entry (cycles >= 1, AllCycles advances by exactly the returned value, stopped iff STP executed, sticky until Reset - also while the host calls every other public method and stores NMI/IRQ requests straight into the public Interrupt field); (b) twin replay of System.RunUntil against a literal single-stepping specification over generated (program, target, budget) cases, comparing state, AllCycles, memory, return value and Logger.Write count; (c) OnPC callbacks counted against instruction fetches at their address - on fresh CPUs and on one reused CPU whose callback set is moved, replaced, grown, shrunk and self-re-armed between runs - and OnWDM operand on both interpreters. A cell is (opcode, E, M, X, DL, page-cross, branch outcome) for (a) and (stop reason, budget class, target class) for (b)"
 	r.Assume = []string{"cpualt declares OnPC but implements no program-counter callback and has no RunUntil: judged on Step accounting and OnWDM only", "termination is decided on logical counts (iterations <= budget), never on wall-clock time"}
 	ncpu := runtime.NumCPU()
 	var zeroCycle int32
